@@ -4,6 +4,7 @@ import (
 	"go/ast"
 	"go/token"
 	"go/types"
+	"sync"
 
 	"rscheck/core"
 )
@@ -31,9 +32,14 @@ type fieldVar struct {
 	field string
 }
 
-var fieldVars = map[types.Object]map[string]*fieldVar{}
+var (
+	fieldVars   = map[types.Object]map[string]*fieldVar{}
+	fieldVarsMu sync.Mutex
+)
 
 func fieldOf(o types.Object, f string) types.Object {
+	fieldVarsMu.Lock()
+	defer fieldVarsMu.Unlock()
 	m := fieldVars[o]
 	if m == nil {
 		m = map[string]*fieldVar{}
@@ -142,9 +148,18 @@ type threader struct {
 	after  string
 	used   bool // the after label is referenced
 	labels map[*ast.Stmt]string
+	chain  *threader // the test that follows this one (nil: none)
+	env    kenv      // the knowledge of the return being threaded (set by target)
 }
 
+// afterLabel: control continues behind the test - at the test that follows,
+// or, when the knowledge decides that one too, inside it.
 func (t *threader) afterLabel() string {
+	if t.chain != nil && t.env != nil {
+		if l := t.chain.target(t.env); l != "" {
+			return l
+		}
+	}
 	t.used = true
 	return t.after
 }
@@ -166,6 +181,8 @@ func (t *threader) into(list []ast.Stmt) string {
 // target decides where a return with the given knowledge continues ("" = at the test itself).
 func (t *threader) target(env kenv) string {
 	info := t.cl.info
+	t.env = env
+	defer func() { t.env = nil }()
 	switch o := t.orig.(type) {
 	case *ast.IfStmt:
 		c := t.copy.(*ast.IfStmt)
